@@ -5,6 +5,8 @@ E1 (sharded, exhaustive over stated finite spaces, reference = mc/ref_c09.py + r
   first      Perm.first(k) == reference prefix, for EVERY k in a range
   rank       unrank(r) / rank() / unrank(r - offset, n) against the position in the reference
              sequence; boundary ranks (first/last 24 of each length) for longer lengths
+  scale      long permutations: ranks at every block boundary q*(m-1)! +-1 (lengths 13..26/40,
+             ranks beyond 2^53), structured shapes, sizes 31..34, 255..258, 300
   rank_reject  ranks outside 0..n!-1 (and negative ranks without a length) are not accepted
   order      <, <=, >, >= between Perms == comparison of ranks (all pairs); sorted/min/max
   std        Perm.to_standard on all sequences over small alphabets, ten value/container
@@ -239,6 +241,128 @@ def shard_rank_boundary(shard):
             if d is not None:
                 part.violation("rank", {"n": n, "end": end, "i": i}, d)
             part.add(1, 1)
+    return part
+
+
+# ---- scale: long permutations, ranks beyond 2^53 (integer-only Lehmer reference) ------------
+
+def shard_scale_rank(shard):
+    """Every rank of RC.scale_ranks(n): unrank(r, n), unrank(offset + r), rank() against the
+    integer-only reference; unrank strictly increasing (lexicographically) along the sorted
+    family."""
+    n, = shard
+    Perm = _P()
+    part = Part()
+    off = RC.offset(n)
+    prev = None
+    ranks = RC.scale_ranks(n)
+    for r in ranks:
+        p = RC.lehmer_unrank(r, n)
+        d = rank_case(Perm, off + r, p)
+        if d is not None:
+            part.violation("scale_rank", {"n": n, "r": r}, d)
+        try:
+            cur = tuple(Perm.unrank(r, n))
+        except Exception:  # noqa  (already reported by rank_case)
+            cur = None
+        if prev is not None and cur is not None and prev[1] is not None \
+                and not tuple.__lt__(prev[1], cur):
+            part.violation("scale_mono", {"n": n, "r1": prev[0], "r2": r},
+                           {"unrank(r1,n)": list(prev[1]), "unrank(r2,n)": list(cur),
+                            "expected": "unrank(r1, n) lexicographically smaller"})
+        prev = (r, cur)
+    part.add(len(ranks), sum(1 for r in ranks if r >= 2 ** 53))
+    part.bump("scale_ranks_at_or_above_2^53", sum(1 for r in ranks if r >= 2 ** 53))
+    for p in RC.scale_perms(n):
+        r = RC.rank_by_counting(p)
+        assert RC.lehmer_unrank(r, n) == p          # the two references agree
+        d = rank_case(Perm, off + r, p)
+        if d is not None:
+            part.violation("scale_perm", {"p": p}, d)
+    part.add(len(RC.scale_perms(n)), len(RC.scale_perms(n)))
+    return part
+
+
+def scale_mono_case(Perm, n, r1, r2):
+    try:
+        a, b = tuple(Perm.unrank(r1, n)), tuple(Perm.unrank(r2, n))
+    except Exception as exc:  # noqa
+        return {"exception": repr(exc)}
+    if not tuple.__lt__(a, b):
+        return {"unrank(r1,n)": list(a), "unrank(r2,n)": list(b),
+                "expected": "unrank(r1, n) lexicographically smaller"}
+    return None
+
+
+LONG_SIZES = (31, 32, 33, 34, 255, 256, 257, 258, 300)
+
+
+def long_perms(n):
+    """The structured shapes at a long length, thinned: identity, reverse, adjacent
+    transpositions at positions 0, 1, n//2, n-2, rotations, i -> k*i mod n, layered, and
+    `q then decreasing rest` for q in {0, 1, n//2, n-2, n-1}."""
+    ident = tuple(range(n))
+    out = [ident, ident[::-1]]
+    for i in (0, 1, n // 2, n - 2):
+        t = list(ident)
+        t[i], t[i + 1] = t[i + 1], t[i]
+        out.append(tuple(t))
+    out += [ident[1:] + ident[:1], ident[-1:] + ident[:-1]]
+    for k in (2, 3, 7):
+        if all(n % d or k % d for d in range(2, k + 1)):
+            out.append(tuple((k * i) % n for i in range(n)))
+    out.append(tuple(v for b in range(0, n, 3) for v in reversed(range(b, min(n, b + 3)))))
+    for q in (0, 1, n // 2, n - 2, n - 1):
+        out.append((q,) + tuple(v for v in reversed(ident) if v != q))
+    return list(dict.fromkeys(out))
+
+
+def long_case(Perm, p):
+    """Conversions and ranks of one long permutation; None or dict of failures."""
+    n = len(p)
+    bad = dict(notation_case(Perm, p) or {})
+    bad.pop("p", None)
+    r = RC.rank_by_counting(p)
+    d = rank_case(Perm, RC.offset(n) + r, p)
+    if d:
+        bad.update({k: v for k, v in d.items() if k.startswith(("unrank", "rank()"))})
+
+    def expect(name, thunk, ref):
+        try:
+            got = thunk()
+        except Exception as exc:  # noqa
+            bad[name] = repr(exc)
+            return
+        if not is_perm_obj(Perm, got, ref):
+            bad[name] = describe(got) if len(ref) <= 40 else "differs from the reference"
+
+    expect("to_standard(2v+1)", lambda: Perm.to_standard([2 * v + 1 for v in p]), p)
+    tied = [v // 2 for v in p]
+    expect("to_standard(v//2)", lambda: Perm.to_standard(tied), R.std(tied))
+    expect("to_standard(float)", lambda: Perm.to_standard(tuple(float(v) for v in p)), p)
+    # rejections by the validated constructor: out of range at the top, duplicate of the top value
+    for name, t in (("validated(out of range)", p[:-1] + (n,)),
+                    ("validated(duplicate)",
+                     tuple(n - 2 if v == n - 1 else v for v in p))):
+        try:
+            got = Perm.from_iterable_validated(t)
+            bad[name] = "accepted: " + repr(got)[:80]
+        except ValueError:
+            pass
+        except Exception as exc:  # noqa
+            bad[name] = repr(exc)
+    return bad or None
+
+
+def shard_scale_long(shard):
+    n, = shard
+    Perm = _P()
+    part = Part()
+    for p in long_perms(n):
+        d = long_case(Perm, p)
+        if d is not None:
+            part.violation("scale_long", {"p": p}, d)
+        part.add(1, 1)
     return part
 
 
@@ -1668,6 +1792,27 @@ def run(ctx, only=None):
                               "r in [-60, -1] without a length"
                               % (len(ref) - 1, N, N + 1, top, 5 if quick else 6))
         ctx.section("rank", evaluations=ctx.evals - e0)
+    if want("scale"):
+        e0 = ctx.evals
+        lens = list(range(13, 27 if quick else 41))
+        ctx.pmap(shard_scale_rank, [(n,) for n in lens])
+        ctx.pmap(shard_scale_long, [(n,) for n in LONG_SIZES])
+        ctx.bounds["scale"] = {
+            "rank_lengths": lens,
+            "ranks": "per length n: 0, n!-1; q*(m-1)! + {-1,0,1} for every suffix length m = 2..n "
+                     "and q = 1..m-1, behind an increasing and behind a decreasing prefix of "
+                     "length n-m; 2^e + {-1,0,1}, e = 52..70, where < n!  (%d ranks at n = %d): "
+                     "unrank(r, n), unrank(offset+r), rank() against the integer-only Lehmer "
+                     "reference; unrank strictly increasing along the sorted family"
+                     % (len(RC.scale_ranks(lens[-1])), lens[-1]),
+            "perms": "per length n: identity, reverse, every adjacent transposition, rotations, "
+                     "k*i mod n, layered, `q then decreasing rest` behind increasing prefixes of "
+                     "length 0..3: rank() by counting, unrank back",
+            "long_sizes": list(LONG_SIZES),
+            "long": "thinned shapes at the long sizes: rank/unrank, repr/one_based/validated/"
+                    "to_standard (also 2v+1, floats, ties v//2), validated rejects out-of-range "
+                    "and duplicate at the top value"}
+        ctx.section("scale", evaluations=ctx.evals - e0)
     if want("order"):
         e0 = ctx.evals
         m = 5 if quick else 6
@@ -1729,7 +1874,7 @@ def run(ctx, only=None):
         shards += [("sparse+of_length" if quick else "all", p) for p in RC.lex_perms(3)]
         if not quick:
             shards += [("sparse", p) for p in RC.lex_perms(4)]
-        bigk = (4, 5, 6) if quick else (4, 5, 6, 7, 8)
+        bigk = (4, 5, 6, 7, 8) if quick else (4, 5, 6, 7, 8, 9, 10)   # k >= 7: ranks >= 2^53
         shards += [("big", p) for k in bigk for p in big_patterns(k)]
         ctx.pmap(shard_mesh, shards)
         ctx.bounds["mesh"] = (
@@ -1859,6 +2004,24 @@ def replay_once(part, rec):
             d = rank_case(Perm, r, p)
             if d is not None:
                 part.violation("rank", case, d)
+    elif sub == "scale_rank":
+        n, r = case["n"], case["r"]
+        d = rank_case(Perm, RC.offset(n) + r, RC.lehmer_unrank(r, n))
+        if d is not None:
+            part.violation(sub, case, d)
+    elif sub == "scale_mono":
+        d = scale_mono_case(Perm, case["n"], case["r1"], case["r2"])
+        if d is not None:
+            part.violation(sub, case, d)
+    elif sub == "scale_perm":
+        p = tuple(case["p"])
+        d = rank_case(Perm, RC.offset(len(p)) + RC.rank_by_counting(p), p)
+        if d is not None:
+            part.violation(sub, case, d)
+    elif sub == "scale_long":
+        d = long_case(Perm, tuple(case["p"]))
+        if d is not None:
+            part.violation(sub, case, d)
     elif sub == "rank_reject":
         check_reject(part, case["r"], case["n"])
     elif sub == "order":
